@@ -1,8 +1,8 @@
 (* Extraction of the executable models for the correspondence check.
    Only ExtrOcamlBasic is used: bool/option/unit/list/prod/sumbool/sumor map to OCaml's,
    Z/N/positive/nat stay extracted inductives.  No Extract Constant of our own. *)
-From PV Require Import Model.Prelude Model.Bits Model.Sig Model.Matcher Model.Select Model.Uptime Model.Mtu Model.Options Model.Wire Model.Text Model.SigParse Model.DbParse Model.Dump Model.HttpRead Model.HttpMatch Model.DbState Model.Api Model.Imperson.
+From PV Require Import Model.Prelude Model.Bits Model.Sig Model.Matcher Model.Select Model.Uptime Model.Mtu Model.Options Model.Wire Model.Text Model.SigParse Model.DbParse Model.Dump Model.HttpRead Model.HttpMatch Model.DbState Model.Api Model.Imperson Spec.C05.
 Require Extraction ExtrOcamlBasic.
 Extraction Language OCaml.
 Set Extraction Output Directory ".".
-Extraction "model.ml" tcp_match win_multi fp_tcp uptime fp_mtu imp_mtu parse_options parse_packet sig_of parse_file db_len parse_tcp_sig parse_http_sig parse_mtu_sig parse_os_label dump_label dump_layout dump_quirks parse_layout parse_quirks lookup candidates read_payload fp_http history loader0 run_ops empty_db imp_tcp enc_out.
+Extraction "model.ml" tcp_match win_multi fp_tcp uptime fp_mtu imp_mtu parse_options parse_packet sig_of parse_file db_len parse_tcp_sig parse_http_sig parse_mtu_sig parse_os_label dump_label dump_layout dump_quirks parse_layout parse_quirks lookup candidates read_payload fp_http history loader0 run_ops empty_db imp_tcp enc_out supported_b coherent_b oracle.
